@@ -58,10 +58,13 @@ def strategy(tier):
             min_size=2, max_size=12),
         "choices": st.lists(st.integers(0, 39), min_size=4, max_size=40),
         "mode": st.sampled_from(["scan", "init", "init", "twice",
-                                 "scan-then-init"]),
+                                 "scan-then-init", "both"]),
         "latency": st.lists(st.sampled_from([0, 0, 1, 2, 3]), min_size=1,
                             max_size=6),
         "serials": st.lists(st.integers(0, 5), min_size=12, max_size=12),
+        # the network stack refuses to send this frame (ENOBUFS)
+        "send_error_at": st.none() | st.none() | st.none()
+        | st.integers(0, 30),
     })
 
 
@@ -126,15 +129,22 @@ def run_case(case):
         ec.terminal_addr_range = (LO, hi)
         simbus.connect_frame_level(
             ec, loop, bus,
-            latency=lambda no: lat[no % len(lat)] / 1000 or None)
+            latency=lambda no: lat[no % len(lat)] / 1000 or None,
+            fault=lambda no, frame: {"send_error": True}
+            if no == case.get("send_error_at") else {})
         jobs = []
-        if case["mode"] in ("scan", "twice"):
+        if case["mode"] in ("scan", "twice", "both"):
             jobs.append(ec.scan_serial_numbers())
         if case["mode"] == "twice":
             jobs.append(ec.scan_serial_numbers())
         if case["mode"] == "scan-then-init":
-            await ec.scan_serial_numbers()
-        if case["mode"] in ("init", "scan-then-init"):
+            try:
+                await ec.scan_serial_numbers()
+            except Exception as e:
+                out["results"] = [e]
+                out["used"] = set(ec.used_addresses)
+                return
+        if case["mode"] in ("init", "scan-then-init", "both"):
             # many terminals initialised concurrently (each one once: two
             # initialisations of the same terminal would be the caller's race)
             for i in range(n):
@@ -154,7 +164,8 @@ def run_case(case):
     finally:
         ethercat.randint = real_randint
 
-    classes = [f"n={n}", f"mode={case['mode']}",
+    classes = [f"n={n}", f"mode={case['mode']}"] + (
+        ["send-error"] if case.get("send_error_at") is not None else []) + [
                f"pre={sum(1 for a in pre if a)}"]
 
     def fail(what):
@@ -165,8 +176,13 @@ def run_case(case):
 
     if "stalled" in out:
         return fail(f"did not finish: {out['stalled']}")
+    # after a refused send the operations may fail; the addresses are judged
+    both = case["mode"] == "both" or case.get("send_error_at") is not None
     for r in out["results"]:
-        if isinstance(r, BaseException):
+        # a scan running concurrently with initialisations re-addresses
+        # terminals under the feet of the other (the callers' race): there
+        # only the addresses themselves are judged
+        if isinstance(r, BaseException) and not both:
             return fail(f"operation failed: {type(r).__name__}: {r}")
     owner = {}
     for idx, new, others in world["writes"]:
@@ -180,8 +196,10 @@ def run_case(case):
             return fail(f"address {new} handed out twice: terminals "
                         f"{owner[new]} and {idx}")
     final = [t.station for t in world["terms"]]
-    if 0 in final:
+    if 0 in final and not both:
         return fail(f"a terminal was left without address: {final}")
+    if both:
+        final = [a for a in final if a]
     if len(set(final)) != len(final):
         return fail(f"final station addresses are not distinct: {final}")
     preset = {a for a in pre if a}
